@@ -380,7 +380,8 @@ def sum_witness_register():
 
 class C06(SeqProp):
     pid = "C06"
-    spec_import = "Require Import PV.Spec.SpecC06."
+    spec_import = "Require Import PV.Spec.SpecC06.\nRequire PV.Proofs.C06Spec."
+    dom_fn = "(fun ops => andb (PV.Proofs.C06Spec.in_domain ops) (PV.Proofs.C06Spec.no_collision ops))"     # the domain of the uniform spec-of-model theorem (counted in the evidence)
     spec_fn = "spec_c06"
     known_fn = "known_c06"
     rule = ("each scenario: 1-2 registries (some with a prefix / common labels, some of which clash with a collector's own label names), "
